@@ -419,6 +419,34 @@ def root_setter_cases(ctx):
                 ctx.fail("an attached node was accepted as a document's root (%s)" % outcome, case, classify)
             elif not same:
                 ctx.fail("the trees differ after a refused root assignment", case, classify)
+            # the constructor route: Document(node) with the same attached node of a document-less tree
+            p2 = build()
+            with impl.altered_default_filters():
+                k2 = next(x for x in p2.iterate_descendants() if isinstance(x, impl.TagNode) and x.local_name == "k")
+                kp2 = k2.parent
+            before2 = str(p2)
+            ctx.count(1, "root-setter")
+            ctx.nontrivial_case(("document-constructor", label, str(filt)))
+            try:
+                if filt is None:
+                    made = Document(k2)
+                elif filt == ():
+                    with impl.altered_default_filters():
+                        made = Document(k2)
+                else:
+                    with impl.altered_default_filters(filt):
+                        made = Document(k2)
+                outcome2 = None
+            except Exception as e:  # noqa: BLE001
+                outcome2 = type(e).__name__
+            case2 = {"category": "root-setter", "call": "Document(node)", "offered": label, "filter": str(filt), "exception": outcome2}
+            with impl.altered_default_filters():
+                same2 = k2.parent is kp2 and str(p2) == before2 and k2.document is None
+            if outcome2 != "ValueError":
+                ctx.fail("Document(node) accepted an attached node of a document-less tree (%s): it is a child of its parent "
+                         "and a document's root at once" % outcome2, case2, classify)
+            elif not same2:
+                ctx.fail("the tree differs after a refused Document(node)", case2, classify)
 
 
 XMLNS = "http://www.w3.org/2000/xmlns/"
